@@ -273,11 +273,12 @@ Proof.
   destruct (squash_scan (length (m_ents m)) (m_parent m)) as [fs rest] eqn:E.
   pose proof (squash_scan_split _ _ _ _ E) as Hs.
   destruct fs as [|f0 fr]; [reflexivity|].
-  rewrite !hasm_iff. simpl m_ents. simpl m_parent.
-  rewrite keys_add_entries_from, keys_fold_files, Hs, has_app, has_files. simpl keys at 3.
+  rewrite !hasm_iff. cbn [m_ents m_parent].
+  rewrite keys_add_entries_from, keys_fold_files, Hs, has_app, (has_files (f0 :: fr)).
   split.
   - intros [[H|[[f [Hf Hk]]|[]]]|H]; auto. right. left. exists f. split; [apply in_rev; exact Hf|exact Hk].
-  - intros [H|[[f [Hf Hk]]|H]]; auto. left. right. left. exists f. split; [apply in_rev in Hf; exact Hf|exact Hk].
+  - intros [H|[[f [Hf Hk]]|H]]; auto. left. right. left. exists f.
+    split; [apply in_rev in Hf; exact Hf|exact Hk].
 Qed.
 
 Lemma save_in_keys : forall m k, has (save_in m) k <-> hasm m k.
@@ -326,4 +327,603 @@ Proof.
   - intros H. apply fold_merge_only in H. destruct H as [H|H]; [|auto].
     apply hasm_iff in H. simpl in H. tauto.
   - intros H. apply fold_merge_keeps. destruct H as [H|H]; [|auto]. left. apply hasm_iff. simpl. auto.
+Qed.
+
+(* ------------------------------------------------------------------ the heads protocol *)
+(** Keys reachable from the heads directory. *)
+Definition KCov (H : list table) (k : N) : Prop := exists h, In h H /\ has h k.
+
+(** A pending removal list is justified by the table [n] just recorded: every table to be
+    removed has another name and no key that [n] lacks. *)
+Definition just (n : table) (todo : list table) : Prop :=
+  forall x, In x todo -> x <> n /\ forall k, has x k -> has n k.
+
+Definition pc_ok (H : list table) (c : pc) : Prop :=
+  match c with
+  | PAdd n todo _ _ => just n todo
+  | PRem n todo _ _ => just n todo /\ In n H
+  | _ => True
+  end.
+
+Definition Inv (s : state) : Prop := Forall (fun p => pc_ok (s_heads s) (p_pc p)) (s_procs s).
+
+(** A process is active while it still has heads to remove. *)
+Definition active (p : proc) : bool :=
+  match p_pc p with
+  | PRem _ _ _ _ => true
+  | PAdd _ (_ :: _) _ _ => true
+  | _ => false
+  end.
+
+(** At most one process is active. *)
+Definition excl (s : state) : Prop :=
+  forall i j p q, nth_error (s_procs s) i = Some p -> nth_error (s_procs s) j = Some q ->
+                  active p = true -> active q = true -> i = j.
+
+Definition kcov_le (s s' : state) : Prop := forall k, KCov (s_heads s) k -> KCov (s_heads s') k.
+
+Lemma kcov_le_refl : forall s, kcov_le s s.
+Proof. intros s k H. exact H. Qed.
+
+Lemma kcov_le_trans : forall a b c, kcov_le a b -> kcov_le b c -> kcov_le a c.
+Proof. intros a b c H1 H2 k H. apply H2, H1, H. Qed.
+
+Lemma just_nil : forall n, just n [].
+Proof. intros n x []. Qed.
+
+Lemma just_tail : forall n x todo, just n (x :: todo) -> just n todo.
+Proof. intros n x todo H y Hy. apply H. right. exact Hy. Qed.
+
+Lemma after_head_ok : forall H p n w locked, pc_ok H (p_pc (after_head p n w locked)).
+Proof.
+  intros H p n w locked. unfold after_head. destruct w as [es|]; cbn [p_pc pc_ok].
+  - destruct n as [|n0 nr]; [apply just_nil|].
+    intros x Hx. apply In_others_than in Hx. destruct Hx as [[<-|[]] Hne]. split; [exact Hne|].
+    intros k Hk. apply save_keys. right. exact Hk.
+  - destruct locked; exact I.
+Qed.
+
+Lemma after_todo_ok : forall H p n todo w locked,
+  just n todo -> In n H -> pc_ok H (p_pc (after_todo p n todo w locked)).
+Proof.
+  intros H p n todo w locked Hj Hn. unfold after_todo. destruct todo as [|x r].
+  - apply after_head_ok.
+  - simpl. split; assumption.
+Qed.
+
+Lemma pc_ok_sup : forall H H' c, (forall h, In h H -> In h H') -> pc_ok H c -> pc_ok H' c.
+Proof. intros H H' c Hs Hc. destruct c; simpl in *; auto. destruct Hc. split; auto. Qed.
+
+Lemma Forall_set_nth_idx {A} (P : A -> Prop) : forall (l : list A) n x,
+  (forall j y, j <> n -> nth_error l j = Some y -> P y) -> P x -> Forall P (set_nth n x l).
+Proof.
+  induction l as [|h t IH]; intros n x Hl Hx; [destruct n; constructor|].
+  destruct n; simpl; constructor; auto.
+  - apply Forall_forall. intros y Hy. apply In_nth_error in Hy. destruct Hy as [j Hj].
+    apply (Hl (S j) y); [discriminate|exact Hj].
+  - apply (Hl 0 h); [discriminate|reflexivity].
+  - apply IH; [|exact Hx]. intros j y Hj Hn. apply (Hl (S j) y); [congruence|exact Hn].
+Qed.
+
+Lemma Inv_nth : forall s j r, Inv s -> nth_error (s_procs s) j = Some r -> pc_ok (s_heads s) (p_pc r).
+Proof.
+  intros s j r HI Hn. unfold Inv in HI. rewrite Forall_forall in HI.
+  apply (HI r). eapply nth_error_In. exact Hn.
+Qed.
+
+(** Update of the moving process when the directory only grows. *)
+Lemma Inv_upd_sup : forall s pid q H' lk,
+  Inv s -> (forall h, In h (s_heads s) -> In h H') -> pc_ok H' (p_pc q) ->
+  Inv (mk_state H' lk (set_nth pid q (s_procs s))).
+Proof.
+  intros s pid q H' lk HI Hs Hq. unfold Inv; simpl. apply Forall_set_nth_idx; [|exact Hq].
+  intros j y _ Hn. eapply pc_ok_sup; [exact Hs|]. eapply Inv_nth; eassumption.
+Qed.
+
+(** With the guard of the current code ([fixed] = true), every atomic step from a state in
+    which at most one process is removing heads keeps the invariant and loses no key. *)
+Lemma step_ok : forall lw s e,
+  Inv s -> excl s -> Inv (step true lw s e) /\ kcov_le s (step true lw s e).
+Proof.
+  intros lw s e HI Hex. unfold step, step_lbl.
+  destruct (nth_error (s_procs s) (e_pid e)) as [p|] eqn:Hnth; [|split; [exact HI|apply kcov_le_refl]].
+  pose proof (Inv_nth _ _ _ HI Hnth) as Hpc.
+  assert (Hsame : Inv s /\ kcov_le s s) by (split; [exact HI|apply kcov_le_refl]).
+  assert (Hstay : forall q lk, pc_ok (s_heads s) (p_pc q) ->
+            Inv (mk_state (s_heads s) lk (set_nth (e_pid e) q (s_procs s)))
+            /\ kcov_le s (mk_state (s_heads s) lk (set_nth (e_pid e) q (s_procs s)))).
+  { intros q lk Hq. split; [apply Inv_upd_sup; auto|intros k Hk; exact Hk]. }
+  destruct (p_pc p) as [| |w|w|n todo w locked|n todo w locked|] eqn:Epc.
+  - (* PIdle *)
+    destruct (p_prog p) as [|c r]; [exact Hsame|]. destruct c as [|es|es]; cbn [fst].
+    + apply Hstay. exact I.
+    + apply Hstay. exact I.
+    + apply Hstay. apply after_head_ok.
+  - (* PRead1 *)
+    destruct (read s e) as [|t [|t1 tr]]; cbn [fst]; apply Hstay; simpl; auto. apply just_nil.
+  - (* PLock *)
+    destruct (lock_free lw s); [|exact Hsame]. cbn [fst]. apply Hstay. exact I.
+  - (* PRead2 *)
+    destruct (read s e) as [|t0 [|t1 tr]]; cbn [fst]; apply Hstay.
+    + simpl. apply just_nil.
+    + apply after_head_ok.
+    + cbn [p_pc pc_ok]. intros x Hx. apply in_app_or in Hx.
+      destruct Hx as [Hx|Hx]; apply In_others_than in Hx; destruct Hx as [Hx Hne]; (split; [exact Hne|]);
+        intros k Hk; apply reconcile_keys.
+      * destruct Hx as [<-|[]]. left. exact Hk.
+      * right. exists x. split; assumption.
+  - (* PAdd *)
+    cbn [fst]. simpl in Hpc. split.
+    + apply Inv_upd_sup; [exact HI|intros h Hh; apply In_add_head; right; exact Hh|].
+      apply after_todo_ok; [exact Hpc|apply In_add_head; left; reflexivity].
+    + intros k [h [Hh Hk]]. exists h. split; [apply In_add_head; right; exact Hh|exact Hk].
+  - (* PRem *)
+    simpl in Hpc. destruct Hpc as [Hj Hn].
+    destruct todo as [|x todo']; cbn [fst].
+    + apply Hstay. apply after_head_ok.
+    + destruct (Hj x (or_introl eq_refl)) as [Hne Hkeys].
+      assert (Hn' : In n (remove_head x (s_heads s))) by (apply In_remove_head; split; auto).
+      split.
+      * unfold Inv; simpl. apply Forall_set_nth_idx.
+        -- intros j r Hjne Hr. pose proof (Inv_nth _ _ _ HI Hr) as Hr_ok.
+           destruct (p_pc r) eqn:Er; simpl in *; auto.
+           exfalso. apply Hjne. apply (Hex j (e_pid e) r p Hr Hnth).
+           ++ unfold active. rewrite Er. reflexivity.
+           ++ unfold active. rewrite Epc. reflexivity.
+        -- apply after_todo_ok; [eapply just_tail; exact Hj|exact Hn'].
+      * intros k [h [Hh Hk]]. simpl. destruct (table_eqb h x) eqn:E.
+        -- apply table_eqb_spec in E. subst h. exists n. split; [exact Hn'|apply Hkeys; exact Hk].
+        -- apply table_eqb_neq in E. exists h. split; [apply In_remove_head; auto|exact Hk].
+  - (* PUnlock *)
+    cbn [fst]. apply Hstay. exact I.
+Qed.
+
+Lemma run_ok : forall lw sched s,
+  Inv s -> Forall excl (states (step true lw) sched s) ->
+  Inv (run (step true lw) sched s) /\ kcov_le s (run (step true lw) sched s).
+Proof.
+  intros lw sched. induction sched as [|e r IH]; intros s HI Hex; simpl in Hex.
+  - split; [exact HI|apply kcov_le_refl].
+  - inversion Hex as [|? ? Hs Hr]; subst. destruct (step_ok lw s e HI Hs) as [HI' Hle].
+    destruct (IH _ HI' Hr) as [HI'' Hle']. rewrite run_cons. split; [exact HI''|].
+    eapply kcov_le_trans; eassumption.
+Qed.
+
+Lemma states_app_excl : forall lw fixed a b s,
+  Forall excl (states (step fixed lw) (a ++ b) s) ->
+  Forall excl (states (step fixed lw) a s) /\ Forall excl (states (step fixed lw) b (run (step fixed lw) a s)).
+Proof.
+  intros lw fixed a. induction a as [|e r IH]; intros b s H; simpl in *.
+  - split; [|exact H]. constructor; [|constructor]. destruct b; inversion H; assumption.
+  - inversion H as [|? ? Hs Hr]; subst. destruct (IH _ _ Hr) as [H1 H2]. split; [constructor; assumption|].
+    exact H2.
+Qed.
+
+Lemma init_Inv : forall H ps, Inv (init_state H ps).
+Proof.
+  intros H ps. unfold Inv, init_state; simpl. apply Forall_forall. intros p Hp.
+  apply in_map_iff in Hp. destruct Hp as [cp [<- _]]. exact I.
+Qed.
+
+(** Keys covered at any moment of an exclusive run stay covered. *)
+Lemma protocol_exclusive : forall lw H ps sched1 sched2 k,
+  Forall excl (states (step true lw) (sched1 ++ sched2) (init_state H ps)) ->
+  KCov (s_heads (run (step true lw) sched1 (init_state H ps))) k ->
+  KCov (s_heads (run (step true lw) (sched1 ++ sched2) (init_state H ps))) k.
+Proof.
+  intros lw H ps sched1 sched2 k Hex Hk.
+  destruct (states_app_excl lw true _ _ _ Hex) as [H1 H2].
+  destruct (run_ok lw sched1 _ (init_Inv H ps) H1) as [HI1 _].
+  destruct (run_ok lw sched2 _ HI1 H2) as [_ Hle]. rewrite run_app. apply Hle. exact Hk.
+Qed.
+
+(** The step labelled [LAdd t] puts [t] in the directory. *)
+Lemma add_label_in_heads : forall fixed lw s e t,
+  snd (step_lbl fixed lw s e) = LAdd t -> In t (s_heads (step fixed lw s e)).
+Proof.
+  intros fixed lw s e t. unfold step, step_lbl.
+  destruct (nth_error (s_procs s) (e_pid e)) as [p|]; [|discriminate].
+  destruct (p_pc p) as [| |w|w|n todo w locked|n todo w locked|]; cbn [fst snd].
+  - destruct (p_prog p) as [|[|es|es] r]; cbn [snd]; discriminate.
+  - destruct (read s e) as [|t0 [|t1 tr]]; cbn [snd]; discriminate.
+  - destruct (lock_free lw s); cbn [snd]; discriminate.
+  - destruct (read s e) as [|t0 [|t1 tr]]; cbn [snd]; discriminate.
+  - intros E. inversion E; subst. simpl. apply In_add_head. left. reflexivity.
+  - destruct todo; cbn [snd]; discriminate.
+  - discriminate.
+Qed.
+
+(** The lemma that needs the guard (DESIGN §6 C21): after the whole removal loop of
+    get_head_locked the merged table is still a head. *)
+Lemma reconcile_keeps_merged_head : forall t0 others H,
+  let m := reconcile t0 others in
+  let todo := others_than m [t0] ++ others_than m others in
+  In m (fold_left (fun H x => remove_head x H) todo (add_head m H)).
+Proof.
+  intros t0 others H m todo.
+  assert (Hne : forall x, In x todo -> x <> m).
+  { intros x Hx. unfold todo in Hx. apply in_app_or in Hx.
+    destruct Hx as [Hx|Hx]; apply In_others_than in Hx; tauto. }
+  assert (Hgen : forall l H0, (forall x, In x l -> x <> m) -> In m H0 ->
+                              In m (fold_left (fun H x => remove_head x H) l H0)).
+  { induction l as [|x r IH]; intros H0 Hl Hin; simpl; [exact Hin|].
+    apply IH; [intros y Hy; apply Hl; right; exact Hy|].
+    apply In_remove_head. split; [exact Hin|]. intros E. apply (Hl x (or_introl eq_refl)). auto. }
+  apply Hgen; [exact Hne|]. apply In_add_head. left. reflexivity.
+Qed.
+
+(* ------------------------------------------------------------------ lock discipline *)
+(** With a working lock and every writer going through get_head_locked (no [CStale]),
+    whoever removes heads holds the lock, so ALL schedules are exclusive. *)
+Definition holds (p : proc) : bool :=
+  match p_pc p with
+  | PRead2 _ | PUnlock => true
+  | PAdd _ _ _ l | PRem _ _ _ l => l
+  | _ => false
+  end.
+
+Definition no_stale_cmd (c : cmd) : bool := match c with CStale _ => false | _ => true end.
+
+Definition unlocked_ok (p : proc) : Prop :=
+  forallb no_stale_cmd (p_prog p) = true /\
+  match p_pc p with
+  | PAdd _ todo w false => todo = [] /\ w = None
+  | PRem _ _ _ false => False
+  | _ => True
+  end.
+
+Definition LInv (s : state) : Prop :=
+  (forall i p, nth_error (s_procs s) i = Some p -> holds p = true -> s_lock s = Some i)
+  /\ Forall unlocked_ok (s_procs s).
+
+Lemma nth_error_set_nth_eq {A} : forall (l : list A) n x,
+  n < length l -> nth_error (set_nth n x l) n = Some x.
+Proof.
+  induction l as [|h t IH]; intros n x Hn; simpl in *; [lia|].
+  destruct n; simpl; [reflexivity|]. apply IH. lia.
+Qed.
+
+Lemma nth_error_set_nth_neq {A} : forall (l : list A) n m x,
+  n <> m -> nth_error (set_nth n x l) m = nth_error l m.
+Proof.
+  induction l as [|h t IH]; intros n m x Hne; [destruct n; reflexivity|].
+  destruct n; destruct m; simpl; try reflexivity; [congruence|]. apply IH. congruence.
+Qed.
+
+Lemma nth_error_set_nth_some {A} : forall (l : list A) n m x y,
+  nth_error (set_nth n x l) m = Some y -> (m = n /\ y = x) \/ (m <> n /\ nth_error l m = Some y).
+Proof.
+  intros l n m x y H. destruct (Nat.eq_dec m n) as [->|Hne].
+  - left. split; [reflexivity|].
+    assert (Hlt : n < length l).
+    { apply nth_error_Some. intros E.
+      assert (length (set_nth n x l) = length l).
+      { clear. revert n. induction l as [|h t IH]; intros n; [destruct n; reflexivity|].
+        destruct n; simpl; [reflexivity|]. f_equal. apply IH. }
+      assert (n < length (set_nth n x l)) by (apply nth_error_Some; congruence).
+      apply nth_error_None in E. lia. }
+    rewrite nth_error_set_nth_eq in H by exact Hlt. congruence.
+  - right. split; [exact Hne|]. rewrite nth_error_set_nth_neq in H by congruence. exact H.
+Qed.
+
+Lemma LInv_excl : forall s, LInv s -> excl s.
+Proof.
+  intros s [L1 L2] i j p q Hp Hq Ap Aq.
+  assert (Hh : forall r, In r (s_procs s) -> active r = true -> holds r = true).
+  { intros r Hr Ar. rewrite Forall_forall in L2. destruct (L2 r Hr) as [_ Hu].
+    unfold active in Ar. unfold holds. destruct (p_pc r) as [| | | |n todo w l|n todo w l|]; try discriminate.
+    - destruct l; [reflexivity|]. destruct Hu as [-> _]. discriminate.
+    - destruct l; [reflexivity|destruct Hu]. }
+  pose proof (L1 i p Hp (Hh p (nth_error_In _ _ Hp) Ap)) as E1.
+  pose proof (L1 j q Hq (Hh q (nth_error_In _ _ Hq) Aq)) as E2.
+  congruence.
+Qed.
+
+Lemma holds_after_head : forall p n w locked, holds (after_head p n w locked) = locked.
+Proof. intros p n w locked. unfold after_head, holds. destruct w; simpl; [reflexivity|destruct locked; reflexivity]. Qed.
+
+Lemma holds_after_todo : forall p n todo w locked, holds (after_todo p n todo w locked) = locked.
+Proof.
+  intros p n todo w locked. unfold after_todo. destruct todo; [apply holds_after_head|reflexivity].
+Qed.
+
+Lemma prog_after_head : forall p n w locked, p_prog (after_head p n w locked) = p_prog p.
+Proof. intros p n w locked. unfold after_head. destruct w; reflexivity. Qed.
+
+Lemma prog_after_todo : forall p n todo w locked, p_prog (after_todo p n todo w locked) = p_prog p.
+Proof. intros p n todo w locked. unfold after_todo. destruct todo; [apply prog_after_head|reflexivity]. Qed.
+
+Lemma unlocked_after_head_true : forall p n w,
+  forallb no_stale_cmd (p_prog p) = true -> unlocked_ok (after_head p n w true).
+Proof.
+  intros p n w Hp. split; [rewrite prog_after_head; exact Hp|].
+  unfold after_head. destruct w; simpl; exact I.
+Qed.
+
+Lemma unlocked_after_todo_true : forall p n todo w,
+  forallb no_stale_cmd (p_prog p) = true -> unlocked_ok (after_todo p n todo w true).
+Proof.
+  intros p n todo w Hp. unfold after_todo. destruct todo; [apply unlocked_after_head_true; exact Hp|].
+  split; [exact Hp|exact I].
+Qed.
+
+Lemma LInv_step : forall s e, LInv s -> LInv (step true true s e).
+Proof.
+  intros s e HL. pose proof HL as [L1 L2]. unfold step, step_lbl.
+  destruct (nth_error (s_procs s) (e_pid e)) as [p|] eqn:Hnth; [|exact HL].
+  assert (Hu : unlocked_ok p).
+  { rewrite Forall_forall in L2. apply L2. eapply nth_error_In. exact Hnth. }
+  destruct Hu as [Hprog Hun].
+  (* generic re-establishment: the moving process becomes [q], the lock becomes [lk] *)
+  assert (Hupd : forall q lk H',
+            unlocked_ok q ->
+            (holds q = true -> lk = Some (e_pid e)) ->
+            (forall i r, i <> e_pid e -> nth_error (s_procs s) i = Some r -> holds r = true -> lk = Some i) ->
+            LInv (mk_state H' lk (set_nth (e_pid e) q (s_procs s)))).
+  { intros q lk H' Hq Hl Ho. split; simpl.
+    - intros i r Hr Hh. apply nth_error_set_nth_some in Hr. destruct Hr as [[-> ->]|[Hne Hr]].
+      + apply Hl. exact Hh.
+      + eapply Ho; eassumption.
+    - apply Forall_set_nth_idx; [|exact Hq]. intros j y _ Hy. rewrite Forall_forall in L2.
+      apply L2. eapply nth_error_In. exact Hy. }
+  assert (Hkeep : forall i r, i <> e_pid e -> nth_error (s_procs s) i = Some r -> holds r = true ->
+                              s_lock s = Some i) by (intros i r _ Hr Hh; eapply L1; eassumption).
+  destruct (p_pc p) as [| |w|w|n todo w locked|n todo w locked|] eqn:Epc.
+  - (* PIdle *)
+    destruct (p_prog p) as [|c r] eqn:Eprog; [exact HL|].
+    simpl in Hprog. apply Bool.andb_true_iff in Hprog. destruct Hprog as [Hc Hr].
+    destruct c as [|es|es]; cbn [fst]; [| |discriminate]; apply Hupd; auto;
+      try (split; [exact Hr|exact I]); discriminate.
+  - (* PRead1 *)
+    destruct (read s e) as [|t [|t1 tr]]; cbn [fst]; apply Hupd; auto; try discriminate;
+      split; simpl; auto.
+  - (* PLock *)
+    unfold lock_free, take_lock. simpl negb. rewrite Bool.orb_false_l.
+    destruct (s_lock s) as [holder|] eqn:El; cbn [fst]; [exact HL|].
+    apply Hupd; [split; [exact Hprog|exact I]|reflexivity|].
+    intros i r _ Hr Hh. pose proof (L1 i r Hr Hh). congruence.
+  - (* PRead2 *)
+    assert (Hlock : s_lock s = Some (e_pid e)) by (apply (L1 _ p Hnth); unfold holds; rewrite Epc; reflexivity).
+    destruct (read s e) as [|t0 [|t1 tr]]; cbn [fst]; apply Hupd; auto.
+    + split; [exact Hprog|exact I].
+    + apply unlocked_after_head_true. exact Hprog.
+    + split; [exact Hprog|exact I].
+  - (* PAdd *)
+    cbn [fst]. destruct locked.
+    + assert (Hlock : s_lock s = Some (e_pid e)) by (apply (L1 _ p Hnth); unfold holds; rewrite Epc; reflexivity).
+      apply Hupd; auto. apply unlocked_after_todo_true. exact Hprog.
+    + destruct Hun as [-> ->]. cbn [after_todo after_head].
+      apply Hupd; auto; [split; [exact Hprog|exact I]|discriminate].
+  - (* PRem *)
+    destruct locked; [|destruct Hun].
+    assert (Hlock : s_lock s = Some (e_pid e)) by (apply (L1 _ p Hnth); unfold holds; rewrite Epc; reflexivity).
+    destruct todo as [|x todo']; cbn [fst]; apply Hupd; auto.
+    + apply unlocked_after_head_true. exact Hprog.
+    + apply unlocked_after_todo_true. exact Hprog.
+  - (* PUnlock *)
+    assert (Hlock : s_lock s = Some (e_pid e)) by (apply (L1 _ p Hnth); unfold holds; rewrite Epc; reflexivity).
+    cbn [fst]. apply Hupd.
+    + split; [exact Hprog|exact I].
+    + discriminate.
+    + intros i r Hne Hr Hh. pose proof (L1 i r Hr Hh). congruence.
+Qed.
+
+Definition no_stale (ps : list (table * list cmd)) : Prop :=
+  forall cp, In cp ps -> forallb no_stale_cmd (snd cp) = true.
+
+Lemma init_LInv : forall H ps, no_stale ps -> LInv (init_state H ps).
+Proof.
+  intros H ps Hns. split; simpl.
+  - intros i p Hp Hh. apply nth_error_In in Hp. apply in_map_iff in Hp.
+    destruct Hp as [cp [<- _]]. discriminate.
+  - apply Forall_forall. intros p Hp. apply in_map_iff in Hp. destruct Hp as [cp [<- Hcp]].
+    split; [apply Hns; exact Hcp|exact I].
+Qed.
+
+Lemma locked_all_excl : forall sched s, LInv s -> Forall excl (states (step true true) sched s).
+Proof.
+  induction sched as [|e r IH]; intros s HL; simpl.
+  - constructor; [apply LInv_excl; exact HL|constructor].
+  - constructor; [apply LInv_excl; exact HL|]. apply IH. apply LInv_step. exact HL.
+Qed.
+
+(** ALL interleavings, working lock, writers through get_head_locked: no key is ever lost. *)
+Lemma protocol_locked : forall H ps sched1 sched2 k,
+  no_stale ps ->
+  KCov (s_heads (run (step true true) sched1 (init_state H ps))) k ->
+  KCov (s_heads (run (step true true) (sched1 ++ sched2) (init_state H ps))) k.
+Proof.
+  intros H ps sched1 sched2 k Hns. apply protocol_exclusive.
+  apply locked_all_excl. apply init_LInv. exact Hns.
+Qed.
+
+(* ------------------------------------------------------------------ values: sorted entry maps *)
+Inductive sorted : ents -> Prop :=
+| sorted_nil : sorted []
+| sorted_cons : forall k v r, (forall k', In k' (keys r) -> (k < k')%N) -> sorted r -> sorted ((k, v) :: r).
+
+Definition wf_table (t : table) : Prop := Forall sorted t.
+Definition wf_mt (m : mtable) : Prop := sorted (m_ents m) /\ wf_table (m_parent m).
+
+Lemma keys_add_entry : forall k v e k', In k' (keys (add_entry k v e)) <-> k' = k \/ In k' (keys e).
+Proof.
+  intros k v e k'. rewrite <- !find_in_iff, find_add_entry.
+  destruct (k' =? k)%N eqn:E.
+  - apply N.eqb_eq in E. split; [auto|discriminate].
+  - apply N.eqb_neq in E. tauto.
+Qed.
+
+Lemma add_entry_sorted : forall k v e, sorted e -> sorted (add_entry k v e).
+Proof.
+  intros k v e H. induction H as [|k1 v1 r Hlt Hs IH]; simpl.
+  - constructor; [intros k' []|constructor].
+  - destruct (k <? k1)%N eqn:E1.
+    + apply N.ltb_lt in E1. constructor; [|constructor; assumption].
+      intros k' [<-|Hk']; [exact E1|]. specialize (Hlt _ Hk'). lia.
+    + apply N.ltb_ge in E1. destruct (k =? k1)%N eqn:E2.
+      * apply N.eqb_eq in E2. subst. constructor; assumption.
+      * apply N.eqb_neq in E2. constructor; [|exact IH].
+        intros k' Hk'. apply keys_add_entry in Hk'. destruct Hk' as [->|Hk']; [lia|auto].
+Qed.
+
+Lemma add_entries_from_sorted : forall src acc, sorted acc -> sorted (add_entries_from src acc).
+Proof.
+  unfold add_entries_from. induction src as [|[k v] r IH]; intros acc H; simpl; [exact H|].
+  apply IH. apply add_entry_sorted. exact H.
+Qed.
+
+Lemma of_list_sorted : forall es, sorted (of_list es).
+Proof. intros es. apply add_entries_from_sorted. constructor. Qed.
+
+Lemma sorted_nodup : forall e, sorted e -> NoDup (keys e).
+Proof.
+  intros e H. induction H as [|k v r Hlt Hs IH]; simpl; constructor; [|exact IH].
+  intros Hin. specialize (Hlt _ Hin). lia.
+Qed.
+
+Lemma find_rev_nodup : forall e k, NoDup (keys e) -> find k (rev e) = find k e.
+Proof.
+  induction e as [|[k1 v1] r IH]; intros k Hnd; simpl; [reflexivity|].
+  inversion Hnd as [|? ? Hn Hr]; subst. rewrite find_app, IH by exact Hr. simpl.
+  destruct (k =? k1)%N eqn:E.
+  - apply N.eqb_eq in E. subst. apply find_none_iff in Hn. rewrite Hn. reflexivity.
+  - destruct (find k r); reflexivity.
+Qed.
+
+Lemma find_add_entries_sorted : forall k src acc, sorted src ->
+  find k (add_entries_from src acc) = match find k src with Some v => Some v | None => find k acc end.
+Proof.
+  intros k src acc H. rewrite find_add_entries_from, find_rev_nodup; [reflexivity|].
+  apply sorted_nodup. exact H.
+Qed.
+
+Lemma fold_left_rev {A B} (g : A -> B -> A) : forall l a,
+  fold_left g (rev l) a = fold_right (fun x acc => g acc x) a l.
+Proof.
+  induction l as [|x r IH]; intros a; simpl; [reflexivity|].
+  rewrite fold_left_app. simpl. rewrite IH. reflexivity.
+Qed.
+
+Lemma find_fold_files : forall k fs acc, wf_table fs ->
+  find k (fold_left (fun a f => add_entries_from f a) (rev fs) acc) =
+  match lookup fs k with Some v => Some v | None => find k acc end.
+Proof.
+  intros k fs acc Hwf. rewrite fold_left_rev.
+  induction Hwf as [|f r Hf Hr IH]; simpl; [reflexivity|].
+  rewrite find_add_entries_sorted by exact Hf. destruct (find k f); [reflexivity|exact IH].
+Qed.
+
+Lemma fold_files_sorted : forall fs acc, sorted acc ->
+  sorted (fold_left (fun a f => add_entries_from f a) fs acc).
+Proof.
+  induction fs as [|f r IH]; intros acc H; simpl; [exact H|]. apply IH.
+  apply add_entries_from_sorted. exact H.
+Qed.
+
+Lemma wf_table_app : forall a b, wf_table (a ++ b) <-> wf_table a /\ wf_table b.
+Proof. intros a b. unfold wf_table. apply Forall_app. Qed.
+
+(** Squashing segments never changes a lookup. *)
+Lemma squash_same_lookup : forall m k, wf_mt m -> lookup_mt (maybe_squash m) k = lookup_mt m k.
+Proof.
+  intros m k [He Hp]. unfold maybe_squash.
+  destruct (squash_scan (length (m_ents m)) (m_parent m)) as [fs rest] eqn:E.
+  pose proof (squash_scan_split _ _ _ _ E) as Hs.
+  destruct fs as [|f0 fr]; [reflexivity|].
+  rewrite Hs in Hp. apply wf_table_app in Hp. destruct Hp as [Hfs Hrest].
+  unfold lookup_mt. cbn [m_ents m_parent].
+  rewrite find_add_entries_sorted by exact He. rewrite find_fold_files by exact Hfs.
+  rewrite Hs, lookup_app. simpl find at 2.
+  destruct (find k (m_ents m)); [reflexivity|].
+  destruct (lookup (f0 :: fr) k); reflexivity.
+Qed.
+
+Lemma maybe_squash_wf : forall m, wf_mt m -> wf_mt (maybe_squash m).
+Proof.
+  intros m [He Hp]. unfold maybe_squash.
+  destruct (squash_scan (length (m_ents m)) (m_parent m)) as [fs rest] eqn:E.
+  pose proof (squash_scan_split _ _ _ _ E) as Hs.
+  destruct fs as [|f0 fr]; [split; assumption|].
+  rewrite Hs in Hp. apply wf_table_app in Hp. destruct Hp as [_ Hrest].
+  split; cbn [m_ents m_parent]; [|exact Hrest].
+  apply add_entries_from_sorted. apply fold_files_sorted. constructor.
+Qed.
+
+(** Saving (including the squash it may do) never changes a lookup. *)
+Lemma save_in_lookup : forall m k, wf_mt m -> lookup (save_in m) k = lookup_mt m k.
+Proof.
+  intros m k Hwf. unfold save_in.
+  destruct (m_ents m) as [|e0 er] eqn:Ee; destruct (m_parent m) as [|p0 pr] eqn:Ep;
+    try (change (lookup (m_ents (maybe_squash m) :: m_parent (maybe_squash m)) k)
+           with (lookup_mt (maybe_squash m) k); apply squash_same_lookup; exact Hwf).
+  unfold lookup_mt. rewrite Ee, Ep. reflexivity.
+Qed.
+
+Lemma save_in_wf : forall m, wf_mt m -> wf_table (save_in m).
+Proof.
+  intros m Hwf. pose proof (maybe_squash_wf m Hwf) as [H1 H2]. unfold save_in.
+  destruct (m_ents m) as [|e0 er]; destruct (m_parent m) as [|p0 pr] eqn:Ep;
+    try (constructor; assumption).
+  destruct Hwf as [_ Hp]. rewrite Ep in Hp. exact Hp.
+Qed.
+
+Lemma walk_wf : forall own oth, wf_table oth -> wf_table (walk own oth).
+Proof.
+  intros own oth H. destruct (walk_prefix own oth) as [rest Hr]. rewrite Hr in H.
+  apply wf_table_app in H. tauto.
+Qed.
+
+(** Exact result of merging [o] into [m]: the segments of [o] that are not shared with
+    [m]'s ancestors shadow [m]. *)
+Lemma merge_in_lookup : forall m o k, wf_table o ->
+  lookup_mt (merge_in m o) k =
+  match lookup (walk (m_parent m) o) k with Some v => Some v | None => lookup_mt m k end.
+Proof.
+  intros m o k Hwf. unfold lookup_mt, merge_in. cbn [m_ents m_parent].
+  rewrite find_fold_files by (apply walk_wf; exact Hwf).
+  destruct (lookup (walk (m_parent m) o) k); reflexivity.
+Qed.
+
+Lemma merge_in_wf : forall m o, wf_mt m -> wf_table o -> wf_mt (merge_in m o).
+Proof.
+  intros m o [He Hp] Ho. split; cbn [merge_in m_ents m_parent]; [|exact Hp].
+  apply fold_files_sorted. exact He.
+Qed.
+
+(** Every value found after a merge is the value one of the two sides had. *)
+Lemma merge_in_value : forall m o k v, wf_table o ->
+  lookup_mt (merge_in m o) k = Some v -> lookup_mt m k = Some v \/ lookup o k = Some v.
+Proof.
+  intros m o k v Hwf H. rewrite merge_in_lookup in H by exact Hwf.
+  destruct (walk_prefix (m_parent m) o) as [rest Hr].
+  destruct (lookup (walk (m_parent m) o) k) as [v'|] eqn:E; [|auto].
+  right. rewrite Hr, lookup_app, E. exact H.
+Qed.
+
+(** A save on top of a table: the values written win, everything else is kept. *)
+Lemma save_lookup : forall n es k, wf_table n ->
+  lookup (save_in (mk_mt n (of_list es))) k =
+  match find k (of_list es) with Some v => Some v | None => lookup n k end.
+Proof.
+  intros n es k Hn. rewrite save_in_lookup; [reflexivity|]. split; [apply of_list_sorted|exact Hn].
+Qed.
+
+Definition seq_saves (n : table) (ess : list ents) : table :=
+  fold_left (fun t es => save_in (mk_mt t (of_list es))) ess n.
+
+Lemma seq_saves_wf : forall ess n, wf_table n -> wf_table (seq_saves n ess).
+Proof.
+  induction ess as [|es r IH]; intros n Hn; simpl; [exact Hn|]. apply IH.
+  apply save_in_wf. split; [apply of_list_sorted|exact Hn].
+Qed.
+
+(** In a sequential history the last save of a key wins. *)
+Lemma sequential_wins : forall ess n k, wf_table n ->
+  lookup (seq_saves n ess) k =
+  fold_left (fun acc es => match find k (of_list es) with Some v => Some v | None => acc end)
+            ess (lookup n k).
+Proof.
+  induction ess as [|es r IH]; intros n k Hn; simpl; [reflexivity|].
+  rewrite IH by (apply save_in_wf; split; [apply of_list_sorted|exact Hn]).
+  rewrite save_lookup by exact Hn. reflexivity.
 Qed.
